@@ -1466,7 +1466,7 @@ class Container:
                                             quantity_unit)
                                for substance, value in self.contents.items())
 
-        required_quantity = quantity - current_quantity
+        required_quantity = round(quantity - current_quantity, config.internal_precision)
         result = self._add(solvent, f"{required_quantity} {quantity_unit}")
         required_volume = Unit.convert(solvent, f"{required_quantity} {quantity_unit}", 'L')
         required_volume, unit = Unit.get_human_readable_unit(required_volume, 'L')
